@@ -19,7 +19,7 @@ import Optyx.Sexp
 import Optyx.Drive.Core
 import Optyx.Py.Jacobian
 
-namespace Optyx.Drive
+namespace Optyx.Drive.JacNs
 open Optyx Optyx.Py
 
 def parseNum (s : String) : Option Float :=
@@ -164,4 +164,4 @@ def handleJac (cmd : String) (args : List Sexp) : Option String :=
       | none => "bad-input"
   | _, _ => none
 
-end Optyx.Drive
+end Optyx.Drive.JacNs
